@@ -30,6 +30,7 @@ META = {
     'technique': 'static analysis: abstract interpretation of constructors, normalisation, layout and renderer on small-scope do'
                  'cuments against a denotational reference; stack-machine branch facts; who-may-write on document objects',
 }
+META['text'] += ' (m, refined) documents handed to the layout and the module constants are unchanged by it (before/after snapshots on interpreted layouts); the stack-machine rules (a,c,e) apply while a loop is in the recognised dispatch form - a restructured loop is decided by (n) alone.'
 
 
 def _w(m, ln):
